@@ -8,13 +8,13 @@ TB = ("Trusted base: the kvc engine's model of the Python subset (kvc/interp.py,
       "CPython on every run, the spec functions of spec/kafka.py and spec/schema_spec.py, z3/cvc5.")
 CHECKS = {
  "C01": ("proof", "For every one of the 1629 classes the real read_entity body, run on what the real write_entity body emitted plus an arbitrary tail, returns the instance and leaves exactly the tail - proved for symbolic field values (all combinations, unbounded lengths) with callees used through their contracts; the leaf (writer, reader) pairs are proved directly from their two bodies (inlined); array loops by an inductive generic-iteration rule.",
-         "3, 4/C01", TB + " Float-based time conversions (write_timedelta_i32, write_datetime_i64, write_nullable_datetime_i64) are bounded stand-ins (native grid), reported as bounded, not proved."),
+         "3, 4/C01", TB + " The three float-based time writers (write_timedelta_i32, write_datetime_i64, write_nullable_datetime_i64) are proved under the standard model of IEEE-754 binary64 rounding (kvc/fpmodel.py: machine arithmetic treated as bounded-error real arithmetic, an assumption); a native grid runs alongside as validation of that assumption."),
  "C02": ("proof", "For every class: the bytes appended by the real write_entity body equal E_T(x), an independent spec derived from the declared schema and the protocol rules, for all symbolic instances; every leaf writer is proved against the Kafka spec function of its type; the get_writer table is checked row by row.",
-         "3, 4/C02", TB + " Float-based writers bounded."),
+         "3, 4/C02", TB + " The three float-based time writers (write_timedelta_i32, write_datetime_i64, write_nullable_datetime_i64) are proved under the standard model of IEEE-754 binary64 rounding (kvc/fpmodel.py: machine arithmetic treated as bounded-error real arithmetic, an assumption); a native grid runs alongside as validation of that assumption."),
  "C03": ("proof", "For every class: the real read_entity body on every conforming encoding - canonical fields, tagged fields present (also with default or explicit null) or absent, and runs of arbitrarily many unknown tagged fields (inductive step obligation) - returns exactly the wire values and consumes exactly the encoding.",
          "4/C03", TB),
  "C05": ("proof", "Wire-first: for every class, decoding E_T(x) yields x (match clause), x is in the writer's domain, and the writer emits E_T(x) again; results on arbitrary accepted input lie in the writer's domain (general clause of C10).",
-         "4/C05", TB + " Float-based writers bounded."),
+         "4/C05", TB + " The three float-based time writers (write_timedelta_i32, write_datetime_i64, write_nullable_datetime_i64) are proved under the standard model of IEEE-754 binary64 rounding (kvc/fpmodel.py: machine arithmetic treated as bounded-error real arithmetic, an assumption); a native grid runs alongside as validation of that assumption."),
  "C06": ("proof", "For every class and every symbolic cut position: the real read_entity body on the strict prefix raises BufferUnderflow (truncation clause), composed from the truncation clauses of all leaf readers and the array loop rule.",
          "4/C06", TB),
  "C07": ("proof", "Interface discipline of every function under contract (all leaf readers/writers, the array closures, write_tagged_field, and write_entity/read_entity of all 1629 classes): the sink is used only through write(bytes), the source only through read(int), no probing of the stream's type; sequencing lemma over the class contracts for two (header, payload) messages back to back with arbitrary leading and trailing bytes, for every payload class.",
@@ -34,7 +34,7 @@ CHECKS = {
  "C10": ("proof", "General clause: for every class the real read_entity body on arbitrary bytes raises only SerialError/ValueError/OverflowError classes, never reads beyond the input (source model), every loop has a variant bounded by the unread bytes, and returned values lie in the writer's domain.",
          "4/C10", TB + " Wall-clock time is read as iteration count; memory inside the stream's own read(n) is outside the IO contract."),
  "C11": ("proof", "Every public reader/writer of kio.serial is verified body-by-body against its contract: writers emit exactly the Kafka spec encoding or raise with nothing written; readers satisfy match / null / truncation / general clauses; varint loops unrolled completely with exact integer semantics.",
-         "2, 4/C11", TB + " Float-based time conversions: bounded stand-in over a stated grid, reported as bounded."),
+         "2, 4/C11", TB + " The three float-based time writers (write_timedelta_i32, write_datetime_i64, write_nullable_datetime_i64) are proved under the standard model of IEEE-754 binary64 rounding (kvc/fpmodel.py: machine arithmetic treated as bounded-error real arithmetic, an assumption); a native grid runs alongside as validation of that assumption."),
  "C12": ("proof", "The real PhantomMeta/Phantom methods and every predicate executed symbolically for 19 types x 9 Python kinds of value: isinstance and the constructor agree with the documented closed ranges; nesting and writer-acceptance lemmas.",
          "4/C12", TB + " Aware datetimes modelled as (instant, offset); dt.timestamp() >= 0 <=> instant >= 0 trusted."),
  "C13": ("proof", "Representation invariant WF(T) discharged by evaluation over every class and field (68k ground obligations), each fact read from the module AST and from the live class; reader/writer derivability; acyclic nesting.",
